@@ -129,7 +129,9 @@ def run(ck, rng, tier):
         inp.append("outer %s %s" % (vf.fmt_vec(a), vf.fmt_vec(b)))
         meta.append(("outer", (m, n), a, b))
         M = rmat(rng, m, n, rng.choice((None, 0, 3)))
-        if _ % 7 == 3:   # a matrix whose columns lie entirely just above (or below the negative of) the missing-value code
+        if _ % 7 == 5:   # entries of order 1e-5: every column sum lies between 1e-6 and 1e-3
+            M = [[rng.choice((-1, 1, 1, 1)) * rng.uniform(0.5, 4.0) * 1e-5 for b in range(n)] for a in range(m)]
+        elif _ % 7 == 3:   # a matrix whose columns lie entirely just above (or below the negative of) the missing-value code
             sgn_ = rng.choice((1.0, -1.0))
             M = [[sgn_ * (1.0000005e8 + 3.0 * b + rng.uniform(0, 2.5)) for b in range(n)] for a in range(m)]
         elif _ % 5 == 0:   # columns far from the origin compared with their spread
